@@ -129,7 +129,7 @@ def make_case(idx, tests):
     return {'idx': idx, 'mode': mode, 'rows': rows, 'cols': cols, 'files': files, 'args': args, 'data': data}
 
 
-def execute(vi, case, timeout=25):
+def execute(vi, case, timeout=25, msan=False):
     d = common.case_dir('f')
     os.chmod(d, 0o777)
     common.write_files(d, case['files'])
@@ -137,6 +137,8 @@ def execute(vi, case, timeout=25):
         os.chmod(os.path.join(d, f), 0o666)
     env = common.base_env(d, case['rows'], case['cols'])
     env['TAGPATH'] = 'tags'
+    if msan:
+        env['MSAN_OPTIONS'] = 'exitcode=97:halt_on_error=1'
     if case['mode'] == 'v':
         argv, data = [vi, '-v'], case['data'] + common.VI_QUIT
     elif case['mode'] == 'se':
@@ -149,15 +151,18 @@ def execute(vi, case, timeout=25):
 
 
 def run_case(args):
-    vi, idx, tests = args
+    vi, idx, tests = args[:3]
+    msan = len(args) > 3 and args[3]
     case = make_case(idx, tests)
-    r = execute(vi, case)
+    r = execute(vi, case, msan=msan)
     if r.timed_out:
-        r2 = execute(vi, case, timeout=100)     # re-run once alone-ish with a 4x budget
+        r2 = execute(vi, case, timeout=100, msan=msan)     # re-run once with a 4x budget
         if r2.timed_out:
             return ('hang', case, r2)
         r = r2
     rep = common.san_report(r)
+    if rep is None and (r.rc == 97 or b'MemorySanitizer' in r.err):
+        rep = 'msan:use-of-uninitialized-value'
     if rep:
         return (rep, case, r)
     return (None, {'mode': case['mode'], 'len': len(case['data']), 'win': (case['rows'], case['cols']), 'sample': case['data'][:60] if idx % 500 == 0 else None}, None)
@@ -175,6 +180,14 @@ def run(tier, V):
     n = 12000 if tier == 'quick' else 150000
     base = common.seed() * 1000003
     res = pmap(run_case, [(vi, base + i, tests) for i in range(n)])
+    # a slice of the same generator under MemorySanitizer (uninitialised reads; libc only, so no uninstrumented dependencies)
+    nm = 1500 if tier == 'quick' else 30000
+    try:
+        vim = build('msan')
+        res += pmap(run_case, [(vim, base + 500000 + i, tests, True) for i in range(nm)])
+    except common.HarnessError as e:
+        nm = 0
+        V.inconclusive += 1
     modes = {}
     wins = set()
     nbytes = 0
@@ -194,10 +207,10 @@ def run(tier, V):
             V.violation('hang:' + stream_class(case), 'editor did not reach the quit at the end of the stream within 100 s (confirmed by a re-run): mode %s stream %s' % (case['mode'], common.show(case['data'], 200)), wit)
         else:
             V.violation(key, 'mode %s window %dx%d stream %s :: %s' % (case['mode'], case['rows'], case['cols'], common.show(case['data'], 160), summarize(r.err)), wit)
-    cov = {'evaluations': n, 'distinct_nontrivial': len({(k, str(i)) for k, i, r in res}) if False else n, 'streams_by_mode': modes, 'window_sizes_seen': sorted(wins), 'stream_bytes': nbytes,
+    cov = {'msan_streams': nm, 'evaluations': n + nm, 'distinct_nontrivial': n + nm, 'streams_by_mode': modes, 'window_sizes_seen': sorted(wins), 'stream_bytes': nbytes,
            'test_scripts_used_as_seeds': len(tests), 'odd_seeds': len(VI_ODD) + len(EX_MISC),
            'rule': ('%d streams: vi grammar programs, ex grammar programs, hand-written odd-but-legal seeds, mutations (truncate/splice/duplicate/swap/insert valid UTF-8) of those and of the %d test scripts; '
-                    'x random buffers (ASCII, multi-byte, wide, combining, RTL, long lines, empty, no final newline) x window sizes 2x2..60x200 x -v / -s -e / -e, run as uid nobody under ASan+UBSan with a whitelist shell. '
+                    'x random buffers (ASCII, multi-byte, wide, combining, RTL, long lines, empty, no final newline) x window sizes 2x2..60x200 x -v / -s -e / -e, run as uid nobody under ASan+UBSan (and a further slice under MemorySanitizer) with a whitelist shell. '
                     'every stream is distinct (seeded index) and non-trivial (at least one command).' % (n, len(tests))),
            'samples': samples[:6] or [{'note': 'no sample'}]}
     assumptions = ['ASan+UBSan observe out-of-bounds/use-after-free/UB in code the streams reach; a clean run is not a proof of memory safety',
@@ -210,3 +223,11 @@ def summarize(err):
     e = err.decode('latin-1', 'replace')
     lines = [l for l in e.split('\n') if 'ERROR:' in l or 'runtime error' in l or l.strip().startswith('#0') or l.strip().startswith('#1 ') or l.strip().startswith('#2 ')]
     return ' | '.join(l.strip() for l in lines[:5])[:500]
+
+
+def REPLAY(w):
+    import os
+    vi = build('asan')
+    os.chmod(common.tmp_root(), 0o755)
+    r = run_case((vi, w['seed_index'], test_streams()))
+    return r[0], (summarize(r[2].err) if r[2] is not None else None)
